@@ -67,7 +67,11 @@ def item_xml(it, i, rnd, late_anchor):
         return f'<specs><rect id="rt{i}" x="{q(x1)}" y="{q(y1)}" width="{q(w)}" height="{q(h)}"/></specs><reuse href="#rt{i}" x="{q(x1 + 80)}" y="{q(y1 + 40)}"/>', ""
     if k in ("usex", "usey", "usexy"):
         off = ('x="20"' if "x" in k[3:] else "") + (' y="-10"' if "y" in k[3:] else "")
-        return f'<defs><rect id="ut{i}" x="{q(x1)}" y="{q(y1)}" width="{q(w)}" height="{q(h)}"/></defs><use href="#ut{i}" {off}/>', ""
+        # the referenced shape: a rect, or an ellipse / line covering the same box
+        tgt = rnd.choice([f'<rect id="ut{i}" x="{q(x1)}" y="{q(y1)}" width="{q(w)}" height="{q(h)}"/>',
+                          f'<ellipse id="ut{i}" cx="{q(x1 + w / 2)}" cy="{q(y1 + h / 2)}" rx="{q(w / 2)}" ry="{q(h / 2)}"/>',
+                          f'<line id="ut{i}" x1="{q(x1)}" y1="{q(y1)}" x2="{q(x2)}" y2="{q(y2)}"/>'])
+        return f'<defs>{tgt}</defs><use href="#ut{i}" {off}/>', ""
     raise ValueError(k)
 
 
